@@ -797,7 +797,9 @@ func ClockTick() {
 	}
 	if s.tape.Choose(1000, "clock-tick?") >= 1000-s.cfg.ClockTickPer1k {
 		s.out.ClockTicks++
-		Sleep(time.Duration(1+s.tape.Choose(3, "clock-tick-ns")), "clock-tick")
+		// (an even number of nanoseconds: deadlines handed in by the harness carry an odd one, so that a
+		// tick never makes a timer and a deadline fall due at the same instant in one select)
+		Sleep(time.Duration(2*(1+s.tape.Choose(3, "clock-tick-ns"))), "clock-tick")
 	}
 }
 
